@@ -41,6 +41,9 @@ func enumC03(emit func(c any) bool) {
 						}
 						c.BufSize = 3
 						c.EOFData = n%2 == 0
+						if n%3 == 0 {
+							c.ZeroReads = 1 // a Read that returns (0, nil) before every data read
+						}
 					}
 					if !emit(c) {
 						return
@@ -305,13 +308,15 @@ func enumC18(emit func(c any) bool) {
 			for _, bs := range []int{1, 2, 3, 64} {
 				for _, eof := range []bool{false, true} {
 					for cut := 0; cut < len(stream); cut++ {
-						c := *c0
-						c.BufSize, c.EOFData = bs, eof
-						if cut > 0 {
-							c.Cuts = []int{cut}
-						}
-						if !emit(&c) {
-							return
+						for _, zr := range []int{0, 1} {
+							c := *c0
+							c.BufSize, c.EOFData, c.ZeroReads = bs, eof, zr
+							if cut > 0 {
+								c.Cuts = []int{cut}
+							}
+							if !emit(&c) {
+								return
+							}
 						}
 					}
 					// truncation at every position inside the last document
